@@ -419,6 +419,15 @@ func C20(c *Ctx) {
 	c.R.Rule("C20-R7", "E6", "rendering output files start empty", 0)
 	c.R.Rule("C20-R8", "E1", "analysis and rendering leave the specification as it was given", 1)
 	c20SpecUntouched(c, "C20-R8")
+	{
+		// totality: a search that finds nothing answers -1, which is no bound for a slice
+		var tfns []*ssa.Function
+		for _, f := range c.P.FuncsIn("tools") {
+			tfns = append(tfns, ssau.WithAnon(f)...)
+		}
+		bad, nidx := indexAsBound(c, tfns)
+		c.R.Check(len(bad) == 0, "C20-R1", "tools: a position found by strings.Index is used only where it exists", "tools/dot.go", fmt.Sprintf("%d uses of a search result as a bound or index, each under a test of the result", nidx), strings.Join(bad, "; ")+": the renderer panics (slice bounds out of range) on a spec whose text has no such position")
+	}
 	c20Extras(c, mer, ana, withHelpers)
 	c.R.Rule("C20-R9", "E3", "the terminal nodes reported are exactly the nodes without a branch (no branching, or an empty list of branches)", 1)
 	c20Terminal(c, "C20-R9", ana, withHelpers(ana))
